@@ -60,6 +60,11 @@ def validate_translation(mod, tier, seed):
 
 def do_replay(path):
     body = json.load(open(path))
+    if body.get('kind') == 'unconfirmed':
+        print('replay of', body['obligation'])
+        print('  ' + body['note'])
+        print('NOT REPRODUCED NATIVELY (solver / structural evidence only)')
+        return 1
     tu = O.tu_from_spec(body['tu'])
     build.ensure([tu])
     kind = body['kind']
@@ -128,7 +133,12 @@ def main(argv=None):
         except OSError:
             pass
     tus = mod.tus(tier)
-    binfo = build.ensure(tus)
+    try:
+        binfo = build.ensure(tus)
+    except RuntimeError as e:
+        # not a verdict about the property: the harness could not be compiled against the current headers
+        print('CHECK-ERROR property=%s %s (see BUILD FAILED above): no verdict' % (a.prop, e))
+        return 2
     typedef_warn = build.check_typedefs()
     for w in typedef_warn:
         print('WARNING untranslated scalar type in library text: ' + w)
@@ -209,6 +219,10 @@ def main(argv=None):
             hashes.add((o['kind'], o['h']))
     # ---------------------------------------------------------------- report
     seen = set()
+    for k in known:
+        if k.get('always') and k['match'] not in seen:      # findings about a part of the property the check does not decide: always listed
+            seen.add(k['match'])
+            print('KNOWN-FINDING: property=%s %s' % (a.prop, k.get('what', k['match'])))
     for k, o in known_hits:
         if k['match'] in seen:
             continue
@@ -226,6 +240,17 @@ def main(argv=None):
         print('TASK-ERROR %s\n%s' % (e['task'], e['error']))
     for dsg in xc['disagree'][:5]:
         print('SOLVER-DISAGREEMENT %s says sat where z3 %s said unsat: %s' % (dsg['solver'], z3_version(), dsg['obligation']))
+    if (unconfirmed or errors or xc['disagree'] or mism) and not violations:
+        # the run fails without a natively reproduced counterexample: still hand out a replay file that says what needs attention
+        import hashlib
+        what = (unconfirmed[0]['name'] + ' :: ' + str(unconfirmed[0].get('note'))) if unconfirmed else (('task error: ' + errors[0]['task']) if errors else ('translator / solver disagreement: ' + json.dumps((mism or xc['disagree'])[0])[:300]))
+        body = {'kind': 'unconfirmed', 'property': a.prop, 'obligation': what, 'note': 'solver counterexample, structural difference or tool error that the native build did not reproduce as a numeric difference; '
+                'the property is not shown to hold on this tree', 'model': (unconfirmed[0].get('model') if unconfirmed else None), 'tu': None, 'script': ''}
+        os.makedirs(O.REPLAY_DIR, exist_ok=True)
+        path = os.path.join(O.REPLAY_DIR, '%s-unconfirmed-%s.json' % (a.prop, hashlib.sha256(what.encode()).hexdigest()[:10]))
+        json.dump(body, open(path, 'w'), indent=1, default=str)
+        print('VIOLATION property=%s replay=%s' % (a.prop, path))
+        print('   (not reproduced as a numeric difference by the native build: %s)' % what[:300])
     wall = time.time() - t0
     unknowns = [o for o in obs if o['status'] == 'unknown']
     print('%s tier=%s: %d obligations, %d discharged (%s), %d unknown, %d violations, %d known, %d unconfirmed, %d task errors; %d scenarios, %d solver queries, %.1fs solver, %.1fs wall'
